@@ -113,7 +113,7 @@ def run(run):
                        "ASCII blanks (space, tab, newline): Python and Lua whitespace classes agree there"]
     run.prove()
     cases = list(exhaustive(2 if run.tier == "quick" else 3))
-    nrand = 1200 if run.tier == "quick" else 12000
+    nrand = 2000 if run.tier == "quick" else 12000
     while nrand > 0:
         c = gen_args(run.rng, run.rng.randint(1, 6))
         if c is not None and c["args"]:
